@@ -18,8 +18,8 @@ from .c02 import labels_from_index, logical_codes
 RULE = (
     "Hypothesis generates a history: keys (n <= 16, 1-2 keys) in a container (NumPy, pandas Series, Categorical, "
     "pa.Array, Arrow-backed pandas, polars; contiguous or chunk-wise layout) and up to 6 steps, each one public "
-    "operation from the registry (plus groups, key_count, factorize_2d, crosstab) with values in a container (NumPy, "
-    "pandas, nullable pandas, Arrow-backed pandas, pa.Array, polars, zero-copy views included) and a mask; after every "
+    "operation from the registry (plus groups, key_count, factorize_2d, crosstab, subset_ratio with two masks) with values in a container (NumPy, "
+    "pandas, nullable pandas, Arrow-backed pandas, pa.Array, polars, zero-copy views included) and a mask (boolean array / Series, slice, or positions incl. negative ones); after every "
     "call the returned result is overwritten in place (raw buffer and pandas setitem) and the call is repeated.  "
     "Non-trivial = the container is not plain NumPy or the history has >= 2 steps on one object.  Distinct = hash of "
     "the history."
@@ -30,7 +30,7 @@ ORACLE = ("byte snapshots (NumPy buffers, Arrow buffers, index, categorical code
           "and the repeated call equals a saved copy of the first result")
 ASSUMPTIONS = ["results that are read-only and refuse in-place edits are counted as 'not writable' (nothing to corrupt)"]
 
-EXTRA = ("groups", "key_count", "factorize_2d", "crosstab")
+EXTRA = ("groups", "key_count", "factorize_2d", "crosstab", "subset_ratio")
 
 
 def snapshot(obj):
@@ -186,9 +186,15 @@ def history(draw, variant):
             step["vals"] = draw(S.value_column(n, dtypes=dt, regime="exact"))
             step["vc"] = draw(st.sampled_from(["np", "np_view", "series", "series_nullable", "pd_arrow", "pa", "pl"]))
             mk = draw(st.sampled_from(o.masks))
-            step["mask"] = None if mk == "none" else draw(S.mask_spec(n, kinds=(mk,), negative_pos=False))
+            step["mask"] = None if mk == "none" else draw(S.mask_spec(n, kinds=(mk,), negative_pos=o.kind == "red"))
             step["mc"] = draw(st.sampled_from(["np", "series"]))
             step["kw"] = o.kw(draw, n) if o.kw else {}
+        elif op == "subset_ratio":
+            step["vals"] = draw(S.value_column(n, dtypes=("float64",), regime="exact"))
+            step["vc"] = draw(st.sampled_from(["np", "series"]))
+            step["mask"] = draw(S.mask_spec(n, kinds=("bool",)))
+            step["mask2"] = draw(S.mask_spec(n, kinds=("bool",)))
+            step["mc"] = draw(st.sampled_from(["np", "series"]))
         elif op == "crosstab":
             step["vals"] = draw(S.value_column(n, dtypes=("float64",), regime="exact"))
         steps.append(step)
@@ -217,8 +223,10 @@ def render_value_obj(step, n):
     return data.render_val(vs, vc), None
 
 
-def run_op(gb, keys_objs, step, case, values, mask):
+def run_op(gb, keys_objs, step, case, values, mask, mask2=None):
     op = step["op"]
+    if op == "subset_ratio":
+        return gb.subset_ratio(values, mask, mask2)
     if op in ops.OPS:
         o = ops.OPS[op]
         return o.call(gb, values if o.needs_values else None, mask, copy.deepcopy(step.get("kw", {})))
@@ -271,18 +279,21 @@ def check(case, ctx):
             mask = mask.to_numpy()
         if any(isinstance(k, pd.Series) for k in keys_objs) and isinstance(values, pd.Series):
             values.index = keys_objs[[isinstance(k, pd.Series) for k in keys_objs].index(True)].index
+        mask2 = data.render_mask(step.get("mask2"), n, step.get("mc", "np"), index)
+        if isinstance(mask2, pd.Series) and not isinstance(mask, pd.Series):
+            mask2 = mask2.to_numpy()
         kwsnap = snapshot(step.get("kw", {}).get("times"))
-        snaps = (snapshot(values), snapshot(base), snapshot(mask), snapshot(keys_objs))
+        snaps = (snapshot(values), snapshot(base), snapshot([mask, mask2]), snapshot(keys_objs))
         vrej = rejections.val_rows(step.get("vc", "np"), step["vals"]) if "vals" in step else []
         try:
-            res = run_op(gb, keys_objs, step, case, values, mask)
+            res = run_op(gb, keys_objs, step, case, values, mask, mask2)
         except Exception as e:  # noqa
             row = rejections.match(vrej, e)
             if row:
                 raise Rejected(row)
             raise
         what = f"step {i} ({step['op']}, values in {step.get('vc')})"
-        if (snapshot(values), snapshot(base), snapshot(mask), snapshot(keys_objs)) != snaps:
+        if (snapshot(values), snapshot(base), snapshot([mask, mask2]), snapshot(keys_objs)) != snaps:
             raise Violation(f"input-modified:{step['op']}", f"{what}: an input container changed during the call")
         if logical_codes(gb).tolist() != codes0 or labels_from_index(gb.result_index) != labels0:
             raise Violation(f"grouping-modified:{step['op']}", f"{what}: logical codes / labels changed")
@@ -291,7 +302,7 @@ def check(case, ctx):
         ik = gb.group_ikey
         if isinstance(ik, np.ndarray):
             internal.append(ik)
-        ins = raw_buffers(values) + raw_buffers(base) + raw_buffers(mask) + raw_buffers(keys_objs) + internal
+        ins = raw_buffers(values) + raw_buffers(base) + raw_buffers(mask) + raw_buffers(mask2) + raw_buffers(keys_objs) + internal
         for ra in result_arrays(res):
             for ia in ins:
                 try:
@@ -307,12 +318,12 @@ def check(case, ctx):
         saved = ops.normalise(res) if not isinstance(res, (dict, tuple)) else None
         writes = scribble(res)
         ctx.classes["result_writable" if writes else "result_not_writable"] += 1
-        if (snapshot(values), snapshot(base), snapshot(mask), snapshot(keys_objs)) != snaps:
+        if (snapshot(values), snapshot(base), snapshot([mask, mask2]), snapshot(keys_objs)) != snaps:
             raise Violation(f"write-through-to-input:{step['op']}", f"{what}: overwriting the returned result changed an input")
         if logical_codes(gb).tolist() != codes0 or labels_from_index(gb.result_index) != labels0:
             raise Violation(f"write-through-to-grouping:{step['op']}", f"{what}: overwriting the returned result changed the grouping's codes / labels")
         if saved is not None:
-            res2 = run_op(gb, keys_objs, step, case, values, mask)
+            res2 = run_op(gb, keys_objs, step, case, values, mask, mask2)
             try:
                 ops.compare_norm(saved, ops.normalise(res2), tol=1e-12, what="repeat")
             except Violation as v:
